@@ -98,6 +98,11 @@ impl AttributeParser {
     }
 
     fn parse_group(&mut self, name: Ident, group: TokenStream) -> Nested {
+        // Consume the separator after the group, so that `name(...)` may be followed by
+        // further arguments just like `name = ...` and `name "literal"`.
+        // TODO: Error if there are any tokens following
+        let _ = self.collect_tail(Empty);
+
         Nested::Named(name, NestedValue::Group(group))
     }
 
